@@ -47,6 +47,9 @@ CHECKS = {
  "C18": ("exploration", "exhaustive enumeration of code points / short byte strings / boundary integers / encodings on the real codecs under ASan + bounds sanitizer",
          "all 1,114,112 code points, all byte strings up to 3 bytes plus class-alphabet strings up to 5 (6) bytes in exactly sized blocks, all 16-bit and power-of-two boundary integers, all base64 encodings of short inputs and arbitrary 4/8-symbol inputs",
          "longer inputs covered by class alphabets only", "DESIGN.md §4 C18"),
+ "C19": ("exploration", "exhaustive enumeration of path strings, relative-path pairs, file operation histories, mkdir arguments and directory trees against reference models on a real scratch file system",
+         "every path of <= 4 (5) components over 8 names and both separators, all answerable getRelativePath pairs, every file operation history of <= 4 (5) steps over 24 operations, every Directory::create argument of <= 3 components, every tree of <= 4 (5) nodes with symlinks for recursive unlink",
+         "the kernel's file system semantics are trusted; runs in a private scratch directory", "DESIGN.md §4 C19"),
 }
 NOT_YET = "check not built yet in this snapshot (planned, see DESIGN.md §4)"
 
